@@ -188,6 +188,73 @@ def run(ctx):
                 for k in list(sys.modules):
                     if k.split(".")[0] == pkg:
                         del sys.modules[k]
+        # data frames whose row labels are not the default ones (the result of a group-by, a filter, a date index, two levels):
+        # the path serves a frame equal to the one the keep returned - labels included - through dds.load in this process and
+        # in another one, and through the parquet file under the data directory
+        try:
+            import pandas
+        except ImportError:
+            pandas = None
+        if pandas is not None:
+            import subprocess
+            FRAME_FUNS = [("base", "pandas.DataFrame({'k': ['a', 'b', 'a', 'c'], 'v': [1, 2, 3, 4], 'w': [0.5, 1.5, 2.5, 3.5]})"),
+                          ("agg", "base().groupby('k').sum()"), ("byv", "base().set_index('v')"), ("filt", "base()[base().v %% 2 == 0]"),
+                          ("dated", "pandas.DataFrame({'x': [%(n)d, 2]}, index=pandas.to_datetime(['2020-01-01', '2020-01-03']))"),
+                          ("two", "base().set_index(['k', 'v'])"), ("srt", "base().sort_values('w', ascending=False)")]
+            CHILD = ("import sys, json\nsys.path.insert(0, %r)\nimport dds, pandas\nsys.path.insert(0, %r)\nfrom ddsverif_rt import frame_text\n"
+                     "dds.set_store('local', internal_dir=sys.argv[1], data_dir=sys.argv[2])\n"
+                     "print('RESULT ' + json.dumps(dict((p, frame_text(dds.load(p))) for p in json.loads(sys.argv[3]))))\n")
+            from ddsverif_rt import frame_text
+            for vi, store_kind in enumerate(["local", "local_lru"]):
+                base = tempfile.mkdtemp(prefix="ddsverif_c04p_")
+                pkg = "c4p_%d_%d" % (os.getpid(), vi)
+                try:
+                    real.reset_process_state()
+                    real.set_store(store_kind, os.path.join(base, "si"), os.path.join(base, "sd"))
+                    for step, n in enumerate([1, 5, 1]):
+                        src = ("import dds\nimport pandas\nfrom ddsverif_rt import log, frame_text\n\n"
+                               + "".join("def %s():\n    return %s\n\n" % (fn, body % {"n": n} if "%(n)d" in body else body.replace("%%", "%")) for (fn, body) in FRAME_FUNS)
+                               + "def f0():\n    return [" + ", ".join("frame_text(dds.keep(%r, %s))" % (("/fr/base" if fn == "base" else "/fr/d/" + fn), fn)
+                                                                             for (fn, _) in FRAME_FUNS) + "]\n")
+                        os.makedirs(os.path.join(base, pkg), exist_ok=True)
+                        open(os.path.join(base, pkg, "__init__.py"), "w").close()
+                        with open(os.path.join(base, pkg, "main.py"), "w") as fh:
+                            fh.write(src)
+                        real.load_world(base, pkg + ".main", None, accept=pkg)
+                        r = real.run({"kind": "eval", "fun": "f0"})
+                        res.evaluations += 1
+                        res.count("data_frame_steps")
+                        res.nontrivial("data frames %s %d" % (store_kind, step))
+                        if r["error"] is not None:
+                            res.violations.append({"what": "an evaluation that keeps data frames fails: %s" % (r["error"],), "input": {"source": src}, "kf": None})
+                            break
+                        paths = ["/fr/base"] + ["/fr/d/" + fn for (fn, _) in FRAME_FUNS[1:]]
+                        want = dict(zip(paths, r["value"]))
+                        import dds as _dds
+                        here = dict((p_, frame_text(_dds.load(p_))) for p_ in paths)
+                        cp = subprocess.run([sys.executable, "-B", "-c", CHILD % (common.REPO, os.path.join(common.ROOT, "harness", "rtlib")),
+                                             os.path.join(base, "si"), os.path.join(base, "sd"), json.dumps(paths)], capture_output=True, text=True, timeout=300)
+                        lines = [l for l in cp.stdout.splitlines() if l.startswith("RESULT ")]
+                        if not lines:
+                            raise common.Infra("the child process of the data-frame stratum failed: " + cp.stderr[-500:])
+                        there = json.loads(lines[-1][7:])
+                        files = dict((p_, frame_text(pandas.read_parquet(os.path.join(base, "sd", p_.lstrip("/"))))) for p_ in paths)
+                        bad = None
+                        for p_ in paths:
+                            for who, got in (("dds.load in the same process", here), ("dds.load in another process", there), ("the parquet file under the data directory", files)):
+                                if got[p_] != want[p_]:
+                                    bad = "path %s: the keep returned the frame %s, %s gives %s" % (p_, want[p_], who, got[p_])
+                                    break
+                            if bad:
+                                break
+                        if bad:
+                            res.violations.append({"what": bad, "input": {"source": src, "store": store_kind, "step": step}, "kf": None})
+                            break
+                finally:
+                    shutil.rmtree(base, ignore_errors=True)
+                    for k in list(sys.modules):
+                        if k.split(".")[0] == pkg:
+                            del sys.modules[k]
         # a keep that is not reached (in a branch that is not taken, in a loop that does not run): the evaluation keeps nothing at
         # that path, so the path goes on serving the value of the latest evaluation that did keep it - and does not resolve at all
         # on a store where nothing was ever kept there
